@@ -152,7 +152,8 @@ Definition wf_attr (a : attr) (after : list Z) : Prop :=
   match a with
   | ANone w k => w <> [] /\ all_ws w /\ k <> [] /\ Forall keychar k
   | AVal w k w2 w3 v => w <> [] /\ all_ws w /\ k <> [] /\ Forall keychar k /\ all_ws w2 /\ all_ws w3 /\
-                        (unquoted_value v after \/ quoted_value v)
+                        (unquoted_value v after \/ quoted_value v \/ (cut_quoted_value v /\ after = []))
+                        (* the last: a quoted value cut by the end of input (only possible in ICutTag) *)
   end.
 
 Fixpoint wf_attrs (attrs : list attr) (tail : list Z) : Prop :=
@@ -262,7 +263,9 @@ Proof.
     + rewrite view_bytes_lower_view by (cbn [so sn]; lia).
       rewrite (at_input_view d l pre _ (len w) (len k) Hat) by lia. rewrite <- app_assoc, (slice_mid w k). reflexivity.
   - destruct Hwf as (W1 & W2 & K1 & K2 & W3 & W4 & Hv).
-    assert (Hv' : unquoted_value v (f0 ++ rest) \/ quoted_value v) by (destruct Hv; [left; apply unquoted_value_app; assumption|right; assumption]).
+    assert (Hv' : unquoted_value v (f0 ++ rest) \/ quoted_value v \/ (cut_quoted_value v /\ f0 ++ rest = [])).
+    { destruct Hv as [Hv|[Hv|[Hv Haf]]]; [left; apply unquoted_value_app; assumption|right; left; assumption|].
+      right. right. split; [exact Hv|]. subst f0. destruct Hne as [Hne| ->]; [congruence|reflexivity]. }
     assert (Hat' : at_input d l pre (w ++ k ++ w2 ++ 61 :: w3 ++ v ++ f0 ++ rest)).
     { replace (w ++ k ++ w2 ++ 61 :: w3 ++ v ++ f0 ++ rest) with ((w ++ k ++ w2 ++ 61 :: w3 ++ v) ++ f0 ++ rest); [exact Hat|].
       rewrite <- ?app_assoc. cbn [app]. rewrite <- ?app_assoc. reflexivity. }
@@ -484,7 +487,9 @@ Inductive item :=
 | ICutBogus (c1 : Z) (body : list Z)                                         (* "<?" / "<!" / "</" body *)
 | ICutEnd (name ws : list Z)                                                 (* "</" name ws *)
 | ICutTag (name : list Z) (attrs : list attr)                                (* "<" name attributes *)
-| ICutRaw (name : list Z) (attrs : list attr) (ws content : list Z).         (* raw-text element without its end tag *)
+| ICutRaw (name : list Z) (attrs : list attr) (ws content : list Z)          (* raw-text element without its end tag *)
+| ICutForeign (h : Z) (name inner : list Z)                                  (* svg / math / xml without its end tag: "<" name inner *)
+| ICutForeignEnd (h : Z) (name inner ename ews : list Z).                    (* svg / math / xml cut inside its end tag: ... "</" ename ews *)
 
 Definition item_bytes (i : item) : list Z :=
   match i with
@@ -507,6 +512,8 @@ Definition item_bytes (i : item) : list Z :=
   | ICutEnd name ws => 60 :: 47 :: name ++ ws
   | ICutTag name attrs => 60 :: name ++ concat (map attr_bytes attrs)
   | ICutRaw name attrs ws content => (60 :: name ++ tag_rest attrs ws false) ++ content
+  | ICutForeign h name inner => 60 :: name ++ inner
+  | ICutForeignEnd h name inner ename ews => 60 :: name ++ inner ++ 60 :: 47 :: ename ++ ews
   end.
 
 (* exactly one token per construct (a tag: one per part), lower-cased names, verbatim values *)
@@ -535,6 +542,9 @@ Definition item_obs (i : item) : list obs :=
   | ICutEnd name ws => [mkObs EndTagT (60 :: 47 :: map lower name ++ ws) (map lower name) []]
   | ICutTag name attrs => mkObs StartTagT (60 :: map lower name) (map lower name) [] :: map attr_obs attrs
   | ICutRaw name attrs ws content => tag_obs name attrs false ++ [mkObs TextT content content []]
+  | ICutForeign h name inner => [mkObs (foreign_ty h) (60 :: map lower name ++ inner) (map lower name) []]
+  | ICutForeignEnd h name inner ename ews =>
+      [mkObs (foreign_ty h) (60 :: map lower name ++ inner ++ 60 :: 47 :: ename ++ ews) (map lower name) []]
   end.
 
 Definition is_text (i : item) : bool := match i with IText _ | ITextLt _ _ => true | _ => false end.
@@ -542,7 +552,7 @@ Definition is_text (i : item) : bool := match i with IText _ | ITextLt _ _ => tr
 Definition is_plain (i : item) : bool :=
   match i with
   | IPlain _ _ _ _ | ITextLt _ _ | ICutComment _ | ICutCdata _ | ICutDoctype _ _ _ _ _ _ _ _ | ICutBogus _ _ | ICutEnd _ _
-  | ICutTag _ _ | ICutRaw _ _ _ _ => true
+  | ICutTag _ _ | ICutRaw _ _ _ _ | ICutForeign _ _ _ | ICutForeignEnd _ _ _ _ _ => true
   | _ => false
   end.
 
@@ -596,6 +606,16 @@ Definition wf_item (i : item) : Prop :=
       (exists h, to_hash (map lower name) = Ok h /\ is_raw_hash h = true /\ is_xml_hash h = false /\ h <> html_hash_Plaintext /\
                  raw_len h content = len content) /\        (* no end tag of the element in the content (Script.raw_len) *)
       all_ws ws /\ wf_attrs attrs (ws ++ closer false) /\ content <> []
+  | ICutForeign h name inner =>
+      (exists c nm, name = c :: nm /\ is_letter c = true) /\ Forall namechar name /\
+      to_hash (map lower name) = Ok h /\ is_xml_hash h = true /\
+      (inner = [] \/ exists c r, inner = c :: r /\ (is_ws c = true \/ c = 62)) /\
+      xml_cut_ok (length inner) h true 0 0 inner = true      (* every step of shiftXML continues up to the end of input (Wf.xml_step) *)
+  | ICutForeignEnd h name inner ename ews =>                  (* as IForeign, without the '>' of the end tag *)
+      (exists c nm, name = c :: nm /\ is_letter c = true) /\ Forall namechar name /\
+      to_hash (map lower name) = Ok h /\ to_hash (map lower ename) = Ok h /\ is_xml_hash h = true /\
+      (exists c r, inner = c :: r /\ (is_ws c = true \/ c = 62)) /\ xml_wf (length inner) h true 0 0 inner = true /\
+      Forall (fun c => is_letter c = true) ename /\ Forall (fun c => is_ws c = true) ews
   end.
 
 (* a document: well-formed items, no two texts in a row, plaintext only as the last item *)
@@ -700,7 +720,7 @@ Qed.
 
 Lemma nontext_tag_start i rest : wf_item i -> is_text i = false -> tag_start (item_bytes i ++ rest).
 Proof.
-  intros Hwf Ht. destruct i as [t|b|b|x0 x1 x2 x3 x4 x5 x6 after|name attrs ws void|name ws|name attrs ws content ename ews|h name inner ename ews|c1 body|name attrs ws content|ct ctl|cb|cdb|y0 y1 y2 y3 y4 y5 y6 cafter|cc1 cbody|cname cws|tname tattrs|rname rattrs rws rcontent]; cbn [is_text] in Ht; try discriminate;
+  intros Hwf Ht. destruct i as [t|b|b|x0 x1 x2 x3 x4 x5 x6 after|name attrs ws void|name ws|name attrs ws content ename ews|h name inner ename ews|c1 body|name attrs ws content|ct ctl|cb|cdb|y0 y1 y2 y3 y4 y5 y6 cafter|cc1 cbody|cname cws|tname tattrs|rname rattrs rws rcontent|fh fname finner|ch cname cinner cename cews]; cbn [is_text] in Ht; try discriminate;
     cbn [item_bytes app wf_item] in *.
   - eexists _, _. split; [reflexivity|tauto].
   - eexists _, _. split; [reflexivity|tauto].
@@ -722,6 +742,8 @@ Proof.
     right; right; right. split; [reflexivity|]. cbn [app]. eexists _, _. split; [reflexivity|]. inversion Hb; assumption.
   - destruct Hwf as ((c & nm & -> & Hl) & _). cbn [app]. eexists _, _. split; [reflexivity|].
     right; right; right. split; [reflexivity|]. eexists _, _. split; [reflexivity|]. intros ->. discriminate.
+  - destruct Hwf as ((c & nm & -> & Hl) & _). cbn [app]. eexists _, _. split; [reflexivity|tauto].
+  - destruct Hwf as ((c & nm & -> & Hl) & _). cbn [app]. eexists _, _. split; [reflexivity|tauto].
   - destruct Hwf as ((c & nm & -> & Hl) & _). cbn [app]. eexists _, _. split; [reflexivity|tauto].
   - destruct Hwf as ((c & nm & -> & Hl) & _). cbn [app]. eexists _, _. split; [reflexivity|tauto].
 Qed.
@@ -753,7 +775,7 @@ Qed.
 
 Lemma item_obs_noerr i : Forall (fun o => o_ty o <> ErrorT) (item_obs i).
 Proof.
-  destruct i as [t|b|b|x0 x1 x2 x3 x4 x5 x6 after|name attrs ws void|name ws|name attrs ws content ename ews|h name inner ename ews|c1 body|name attrs ws content|ct ctl|cb|cdb|y0 y1 y2 y3 y4 y5 y6 cafter|cc1 cbody|cname cws|tname tattrs|rname rattrs rws rcontent];
+  destruct i as [t|b|b|x0 x1 x2 x3 x4 x5 x6 after|name attrs ws void|name ws|name attrs ws content ename ews|h name inner ename ews|c1 body|name attrs ws content|ct ctl|cb|cdb|y0 y1 y2 y3 y4 y5 y6 cafter|cc1 cbody|cname cws|tname tattrs|rname rattrs rws rcontent|fh fname finner|ch cname cinner cename cews];
     cbn [item_obs]; unfold tag_obs; repeat (constructor || apply Forall_app; try split); cbn [o_ty]; try discriminate.
   - rewrite Forall_map. apply Forall_forall. intros [? ?|? ? ? ? ?] _; discriminate.
   - destruct void; discriminate.
@@ -762,6 +784,8 @@ Proof.
   - rewrite Forall_map. apply Forall_forall. intros [? ?|? ? ? ? ?] _; discriminate.
   - rewrite Forall_map. apply Forall_forall. intros [? ?|? ? ? ? ?] _; discriminate.
   - rewrite Forall_map. apply Forall_forall. intros [? ?|? ? ? ? ?] _; discriminate.
+  - unfold foreign_ty. destruct (fh =? html_hash_Svg); [discriminate|]. destruct (fh =? html_hash_Math); discriminate.
+  - unfold foreign_ty. destruct (ch =? html_hash_Svg); [discriminate|]. destruct (ch =? html_hash_Math); discriminate.
 Qed.
 
 (* a token that is the whole of X (nothing lower-cased) with Text() = X[a, a+n) *)
@@ -785,7 +809,7 @@ Lemma lexes_item i d l pre rest : at_input d l pre (item_bytes i ++ rest) -> int
 Proof.
   intros Hat Hit Hraw Hlerr Hwf Hnext Hlast. destruct (at_input_buflen _ _ _ _ Hat) as [Hbl Hpre0].
   pose proof (len_nonneg rest) as Hrest0.
-  destruct i as [t|b|b|x0 x1 x2 x3 x4 x5 x6 after|name attrs ws void|name ws|name attrs ws content ename ews|h name inner ename ews|c1 body|name attrs ws content|ct ctl|cb|cdb|y0 y1 y2 y3 y4 y5 y6 cafter|cc1 cbody|cname cws|tname tattrs|rname rattrs rws rcontent]; cbn [item_bytes item_obs wf_item is_text is_plain] in *.
+  destruct i as [t|b|b|x0 x1 x2 x3 x4 x5 x6 after|name attrs ws void|name ws|name attrs ws content ename ews|h name inner ename ews|c1 body|name attrs ws content|ct ctl|cb|cdb|y0 y1 y2 y3 y4 y5 y6 cafter|cc1 cbody|cname cws|tname tattrs|rname rattrs rws rcontent|fh fname finner|ch cname cinner cename cews]; cbn [item_bytes item_obs wf_item is_text is_plain] in *.
   - (* text *)
     destruct Hwf as [Hne Ht].
     destruct (next_text d l pre t rest Hat Hit Hraw Hne Ht (Hnext eq_refl)) as (l' & Hn & Htx & Hb & Hi' & Hr' & _).
@@ -1099,6 +1123,57 @@ Proof.
       rewrite slice_first. reflexivity. }
     destruct Hraw2 as (l2 & Hl2 & Hi2 & Hr2).
     exists l2. split; [|tauto]. eapply lexes_app; [exact Hl1|exact Hl2].
+  - (* svg / math / xml cut by the end of input *)
+    destruct Hwf as (Hn1 & Hn2 & Hh & Hxml & Hin1 & Hin2). rewrite (Hlast eq_refl) in *.
+    assert (Hat0 : at_input d l pre (60 :: fname ++ finner)) by (rewrite app_nil_r in Hat; exact Hat).
+    destruct (next_foreign_cut d l pre fname finner fh Hat0 Hit Hraw Hlerr Hn1 Hn2 Hh Hxml Hin1 Hin2) as (l' & Hn & Htx & Hb & Hi' & Hr' & _).
+    exists l'. split; [|tauto]. pose proof (len_nonneg fname). pose proof (len_nonneg finner).
+    assert (Hl : len (60 :: fname ++ finner) = 1 + len fname + len finner) by (rewrite !len_cons, len_app; lia).
+    eapply lexes_one; [exact Hat|exact Hn|cbn [so sn]; lia|].
+    cbn [observe]. rewrite Htx, Hb. cbn [opt_bytes].
+    replace (foreign_ty fh =? AttributeT) with false by (unfold foreign_ty; destruct (fh =? html_hash_Svg); [reflexivity|]; destruct (fh =? html_hash_Math); reflexivity).
+    destruct (at_input_buflen _ _ _ _ Hat0) as [Hbl0 _]. rewrite Hl in Hbl0.
+    assert (Hname : view_bytes (lbuf (lz l)) (mkSl (len pre + 1) (len fname)) = fname).
+    { rewrite (at_input_view d l pre _ 1 (len fname) Hat0) by lia. pose proof (slice_mid [60] fname finner) as E. exact E. }
+    f_equal.
+    + replace (mkSl (len pre + 1) (len fname)) with (mkSl (len pre + 1) (1 + len fname - 1)) by (f_equal; lia).
+      rewrite view_lower_middle by lia. replace (1 + len fname - 1) with (len fname) by lia. rewrite Hname.
+      rewrite (at_input_view0 d l pre _ 1 Hat0) by lia.
+      rewrite (at_input_view d l pre _ (1 + len fname) (1 + len fname + len finner - (1 + len fname)) Hat0) by lia.
+      change (slice (60 :: fname ++ finner) 0 1) with [60].
+      replace (slice (60 :: fname ++ finner) (1 + len fname) (1 + len fname + (1 + len fname + len finner - (1 + len fname)))) with finner; [reflexivity|].
+      symmetry. replace (1 + len fname + (1 + len fname + len finner - (1 + len fname))) with (1 + len fname + len finner) by lia.
+      pose proof (slice_mid ([60] ++ fname) finner []) as E. rewrite app_nil_r in E.
+      replace (len ([60] ++ fname)) with (1 + len fname) in E by (rewrite len_app; reflexivity).
+      rewrite <- app_assoc in E. exact E.
+    + rewrite view_bytes_lower_view by (cbn [so sn]; lia). rewrite Hname. reflexivity.
+  - (* svg / math / xml cut inside its end tag *)
+    destruct Hwf as (Hn1 & Hn2 & Hh & Heh & Hxml & Hin1 & Hin2 & Helet & Hews). rewrite (Hlast eq_refl) in *.
+    set (finner := cinner ++ 60 :: 47 :: cename ++ cews) in *.
+    assert (Hat0 : at_input d l pre (60 :: cname ++ finner)) by (rewrite app_nil_r in Hat; exact Hat).
+    assert (Hlf : len finner = len cinner + 2 + len cename + len cews) by (unfold finner; rewrite len_app, !len_cons, len_app; lia).
+    destruct (next_foreign_cut_end d l pre cname cinner cename cews ch Hat0 Hit Hraw Hlerr Hn1 Hn2 Hh Heh Hxml Hin1 Hin2 Helet Hews) as (l' & Hn & Htx & Hb & Hi' & Hr' & _).
+    replace (1 + len cname + len cinner + 2 + len cename + len cews) with (1 + len cname + len finner) in Hn by lia.
+    exists l'. split; [|tauto]. pose proof (len_nonneg cname). pose proof (len_nonneg finner).
+    assert (Hl : len (60 :: cname ++ finner) = 1 + len cname + len finner) by (rewrite !len_cons, len_app; lia).
+    eapply lexes_one; [exact Hat|exact Hn|cbn [so sn]; lia|].
+    cbn [observe]. rewrite Htx, Hb. cbn [opt_bytes].
+    replace (foreign_ty ch =? AttributeT) with false by (unfold foreign_ty; destruct (ch =? html_hash_Svg); [reflexivity|]; destruct (ch =? html_hash_Math); reflexivity).
+    destruct (at_input_buflen _ _ _ _ Hat0) as [Hbl0 _]. rewrite Hl in Hbl0.
+    assert (Hname : view_bytes (lbuf (lz l)) (mkSl (len pre + 1) (len cname)) = cname).
+    { rewrite (at_input_view d l pre _ 1 (len cname) Hat0) by lia. pose proof (slice_mid [60] cname finner) as E. exact E. }
+    f_equal.
+    + replace (mkSl (len pre + 1) (len cname)) with (mkSl (len pre + 1) (1 + len cname - 1)) by (f_equal; lia).
+      rewrite view_lower_middle by lia. replace (1 + len cname - 1) with (len cname) by lia. rewrite Hname.
+      rewrite (at_input_view0 d l pre _ 1 Hat0) by lia.
+      rewrite (at_input_view d l pre _ (1 + len cname) (1 + len cname + len finner - (1 + len cname)) Hat0) by lia.
+      change (slice (60 :: cname ++ finner) 0 1) with [60].
+      replace (slice (60 :: cname ++ finner) (1 + len cname) (1 + len cname + (1 + len cname + len finner - (1 + len cname)))) with finner; [reflexivity|].
+      symmetry. replace (1 + len cname + (1 + len cname + len finner - (1 + len cname))) with (1 + len cname + len finner) by lia.
+      pose proof (slice_mid ([60] ++ cname) finner []) as E. rewrite app_nil_r in E.
+      replace (len ([60] ++ cname)) with (1 + len cname) in E by (rewrite len_app; reflexivity).
+      rewrite <- app_assoc in E. exact E.
+    + rewrite view_bytes_lower_view by (cbn [so sn]; lia). rewrite Hname. reflexivity.
 Qed.
 
 (* ---- documents ------------------------------------------------------------------------------------------------------------- *)
@@ -1124,14 +1199,117 @@ Proof.
       exists l2. eapply lexes_app; [|exact Hl2]. rewrite app_nil_r. exact Hl1.
 Qed.
 
+(* ---- a tag cut by the end of input after its name or an attribute, possibly inside whitespace (tail) ---------------------- *)
+Lemma lexes_cut_tag d l pre tname tattrs tail :
+  at_input d l pre (60 :: tname ++ concat (map attr_bytes tattrs) ++ tail ++ []) -> intag l = false -> rawtag l = 0 ->
+  (exists c nm, tname = c :: nm /\ is_letter c = true) -> Forall namechar tname ->
+  (exists h, to_hash (map lower tname) = Ok h /\ is_xml_hash h = false) -> all_ws tail -> wf_attrs tattrs tail ->
+  exists l', lexes d l pre (60 :: tname ++ concat (map attr_bytes tattrs)) (tail ++ [])
+               (mkObs StartTagT (60 :: map lower tname) (map lower tname) [] :: map attr_obs tattrs) l' /\ intag l' = true.
+Proof.
+  intros Hat Hit Hraw Hn1 Hn2 (h & Hh & Hxml) Htail Hattrs.
+  destruct (at_input_buflen _ _ _ _ Hat) as [Hbl Hpre0].
+  assert (Hshape : forall attrs', wf_attrs attrs' tail -> tagrest_shape ((concat (map attr_bytes attrs') ++ tail) ++ [])).
+  { intros attrs' Hw'. rewrite app_nil_r. destruct attrs' as [|a attrs''].
+    - exists tail, []. split; [cbn [map concat app]; rewrite app_nil_r; reflexivity|]. split; [exact Htail|]. right; right; right. reflexivity.
+    - cbn [wf_attrs] in Hw'. destruct Hw' as [Ha _]. cbn [map concat].
+      assert (Hk : forall w k tl, w <> [] -> all_ws w -> k <> [] -> Forall keychar k -> tagrest_shape ((w ++ k ++ tl))).
+      { intros w k tl Hw1 Hw2 Hk1 Hk2. exists w, (k ++ tl). split; [reflexivity|]. split; [exact Hw2|]. left. split; [exact Hw1|].
+        destruct k as [|c k']; [congruence|]. inversion Hk2; subst. exists c, (k' ++ tl). split; [reflexivity|assumption]. }
+      destruct a as [w k|w k w2 w3 v]; cbn [attr_bytes wf_attr] in *.
+      + destruct Ha as (A1 & A2 & A3 & A4). rewrite <- !app_assoc. apply Hk; assumption.
+      + destruct Ha as (A1 & A2 & A3 & A4 & _). rewrite <- !app_assoc. apply Hk; assumption. }
+  assert (Hat1 : at_input d l pre (60 :: tname ++ concat (map attr_bytes tattrs) ++ tail ++ [])).
+  { exact Hat. }
+  pose proof (Hshape tattrs Hattrs) as Hsh0. rewrite <- app_assoc in Hsh0.
+  destruct (next_starttag d l pre tname (concat (map attr_bytes tattrs) ++ tail ++ []) h Hat1 Hit Hraw Hn1 Hn2 (shape_tag_stop _ Hsh0) Hh Hxml)
+    as (l1 & Hnx & Htx & Hb & Hi1 & Hr1 & _).
+  pose proof (len_nonneg tname).
+  assert (Hlex1 : lexes d l pre (60 :: tname) (concat (map attr_bytes tattrs) ++ tail ++ [])
+                    [mkObs StartTagT (60 :: map lower tname) (map lower tname) []] l1).
+  { eapply lexes_one; [exact Hat1|exact Hnx|cbn [so sn]; rewrite len_cons; lia|].
+    set (tl := concat (map attr_bytes tattrs) ++ tail ++ []) in *.
+    assert (Hbl1 : len (lbuf (lz l)) = len pre + (1 + len tname + len tl) + 1).
+    { destruct (at_input_buflen _ _ _ _ Hat1) as [E _]. rewrite E, len_cons, len_app. lia. }
+    pose proof (len_nonneg tl).
+    cbn [observe]. rewrite Htx, Hb. cbn [opt_bytes]. change (StartTagT =? AttributeT) with false. f_equal.
+    - replace (mkSl (len pre + 1) (len tname)) with (mkSl (len pre + 1) (1 + len tname - 1)) by (f_equal; lia).
+      rewrite view_lower_middle by lia.
+      rewrite (at_input_view0 d l pre _ 1 Hat1) by (rewrite ?len_cons; pose proof (len_nonneg (tname ++ tl)); lia).
+      replace (1 + len tname - 1) with (len tname) by lia.
+      rewrite (at_input_view d l pre _ 1 (len tname) Hat1) by (rewrite ?len_cons, ?len_app; lia).
+      replace (1 + len tname - (1 + len tname)) with 0 by lia.
+      rewrite (at_input_view d l pre _ (1 + len tname) 0 Hat1) by (rewrite ?len_cons, ?len_app; lia).
+      rewrite slice_zero_len, app_nil_r.
+      replace (slice (60 :: tname ++ tl) 1 (1 + len tname)) with tname by (symmetry; exact (slice_mid [60] tname tl)).
+      change (slice (60 :: tname ++ tl) 0 1) with [60]. reflexivity.
+    - rewrite view_bytes_lower_view by (cbn [so sn]; lia).
+      rewrite (at_input_view d l pre _ 1 (len tname) Hat1) by (rewrite ?len_cons, ?len_app; lia).
+      exact (f_equal (map lower) (slice_mid [60] tname tl)). }
+  assert (Hat2 : at_input d l1 (pre ++ 60 :: tname) (concat (map attr_bytes tattrs) ++ tail ++ [])) by (destruct Hlex1 as (tr & _ & _ & _ & A); exact A).
+  destruct (lexes_attrs tattrs d l1 (pre ++ 60 :: tname) tail [] Hat2 Hi1 Hattrs (or_intror eq_refl) Hshape) as (l2 & Hlex2 & Hi2 & Hr2).
+  exists l2. split; [|exact Hi2].
+  change (60 :: tname ++ concat (map attr_bytes tattrs)) with ((60 :: tname) ++ concat (map attr_bytes tattrs)).
+  change (mkObs StartTagT (60 :: map lower tname) (map lower tname) [] :: map attr_obs tattrs)
+    with ([mkObs StartTagT (60 :: map lower tname) (map lower tname) []] ++ map attr_obs tattrs).
+  eapply lexes_app; [exact Hlex1|]. exact Hlex2.
+Qed.
+
+(* at the end of input inside a tag, after whitespace: the end-of-input report, Text() empty *)
+Lemma next_intag_eof d l pre tws : at_input d l pre tws -> intag l = true -> all_ws tws ->
+  exists l', next no_tmpl l = Ok (ErrorT, None, l') /\ ltext l' = None.
+Proof.
+  intros Hat Hit Hws. pose proof (at_input_reads _ _ _ _ Hat) as Hr.
+  assert (Hr' : reads (lz l) (tws ++ [])) by (rewrite app_nil_r; exact Hr).
+  unfold next. cbn [lz rawtag intag lerr ltext lattr lhas]. rewrite Hit. unfold next_intag. cbn [lz rawtag intag lerr ltext lattr lhas].
+  rewrite (ws_loop_reads _ tws [] Hr' Hws (or_introl eq_refl)). cbn [rbind].
+  destruct (reads_end _ _ Hr) as [Hp _]. rewrite pkr_mv0. unfold pkr. rewrite Hp. cbn [opt_res rbind].
+  rewrite (reads_eof0_end _ _ Hr). eexists. split; reflexivity.
+Qed.
+
+(* complete constructs followed by more input that starts a tag *)
+Lemma lexes_doc_open items : forall d l pre rest, at_input d l pre (doc_bytes items ++ rest) -> intag l = false -> rawtag l = 0 -> lerr l = false ->
+  wf_doc items -> Forall (fun i => is_plain i = false) items -> tag_start rest ->
+  exists l', lexes d l pre (doc_bytes items) rest (doc_obs items) l' /\ intag l' = false /\ rawtag l' = 0 /\ lerr l' = false.
+Proof.
+  induction items as [|i items IH]; intros d l pre rest Hat Hit Hraw Hlerr Hwf Hnp Hts.
+  - exists l. split; [apply lexes_nil; exact Hat|tauto].
+  - cbn [wf_doc] in Hwf. destruct Hwf as (Hi & Hnt & Hlast & Hrest). inversion Hnp as [|? ? Hpi Hnp']; subst.
+    unfold doc_bytes, doc_obs in *. cbn [map concat] in *. fold (doc_bytes items) in *. fold (doc_obs items) in *.
+    assert (Hfollow : is_text i = true -> doc_bytes items ++ rest = [] \/ tag_start (doc_bytes items ++ rest)).
+    { intros Ht. right. specialize (Hnt Ht). destruct items as [|j items']; [exact Hts|].
+      cbn [wf_doc] in Hrest. destruct Hrest as (Hj & _). unfold doc_bytes. cbn [map concat]. rewrite <- app_assoc. apply nontext_tag_start; assumption. }
+    assert (Hlast' : is_plain i = true -> doc_bytes items ++ rest = []) by (intros Hpl; congruence).
+    assert (Hat' : at_input d l pre (item_bytes i ++ doc_bytes items ++ rest)) by (rewrite app_assoc; exact Hat).
+    destruct (lexes_item i d l pre (doc_bytes items ++ rest) Hat' Hit Hraw Hlerr Hi Hfollow Hlast') as (l1 & Hl1 & Hst1).
+    destruct (Hst1 Hpi) as [Hi1 Hr1].
+    assert (Hat1 : at_input d l1 (pre ++ item_bytes i) (doc_bytes items ++ rest)) by (destruct Hl1 as (tr & _ & _ & _ & A); exact A).
+    assert (Hlerr1 : lerr l1 = false).
+    { rewrite (lexes_lerr _ _ _ _ _ _ _ (proj1 (proj1 Hat)) Hl1 (item_obs_noerr i)). exact Hlerr. }
+    destruct (IH d l1 (pre ++ item_bytes i) rest Hat1 Hi1 Hr1 Hlerr1 Hrest Hnp' Hts) as (l2 & Hl2 & Hf2).
+    exists l2. split; [|exact Hf2]. eapply lexes_app; [exact Hl1|exact Hl2].
+Qed.
+
 Lemma at_input_init d : at_input d (new_lexer d) [] d.
 Proof. split; [apply html_inv_init|]. split; [reflexivity|]. split; reflexivity. Qed.
 
+(* without delimiters HasTemplate() is false after every call *)
+Lemma run_no_tmpl_has : forall n l tr, run no_tmpl n l = Ok tr -> Forall (fun r => lhas (snd r) = false) tr.
+Proof.
+  induction n as [|k IH]; intros l tr H; cbn [run] in H; [injection H as <-; constructor|].
+  destruct (next no_tmpl l) as [r| |] eqn:En; cbn [rbind] in H; try discriminate.
+  destruct (run no_tmpl k (snd r)) as [rest| |] eqn:Er; cbn [rbind] in H; try discriminate.
+  injection H as <-. constructor; [exact (next_no_tmpl_has l r En)|exact (IH _ _ Er)].
+Qed.
+
 Lemma html_wellformed_tokens_proof : forall items, wf_doc items ->
   exists tr, run no_tmpl (length (doc_obs items) + 1) (new_lexer (doc_bytes items)) = Ok tr /\
-             map observe tr = doc_obs items ++ [mkObs ErrorT [] [] []].
+             map observe tr = doc_obs items ++ [mkObs ErrorT [] [] []] /\
+             Forall (fun r => lhas (snd r) = false) tr.
 Proof.
   intros items Hwf. set (d := doc_bytes items).
+  cut (exists tr, run no_tmpl (length (doc_obs items) + 1) (new_lexer d) = Ok tr /\ map observe tr = doc_obs items ++ [mkObs ErrorT [] [] []]).
+  { intros (tr & Hr & Ho). exists tr. split; [exact Hr|]. split; [exact Ho|exact (run_no_tmpl_has _ _ _ Hr)]. }
   destruct (lexes_doc items d (new_lexer d) [] (at_input_init d) eq_refl eq_refl eq_refl Hwf) as (l' & (tr & Hr & Ho & Hf & Hat)).
   cbn [app] in Hat. destruct Hat as (Hinv & Hcl & Hd & Hp). rewrite app_nil_r in Hd. subst d. clear Hd.
   destruct (html_eof_sticky_step_proof no_tmpl _ l' cfg_ok_no_tmpl Hinv Hp) as (l2 & Hn2 & Hinv2 & Hp2 & _).
@@ -1143,6 +1321,36 @@ Proof.
   pose proof (safe_eq _ _ _ (next_spec no_tmpl l' cfg_ok_no_tmpl Hl) Hn2) as Hs. cbn [step_post] in Hs.
   destruct Hs as (_ & (Vt & _) & _). destruct (ltext l2) as [t|]; [|reflexivity]. cbn [opt_within opt_bytes] in *.
   unfold view_bytes, slice, firstz. replace (so t + sn t - so t) with 0 by lia. reflexivity.
+Qed.
+
+(* complete constructs, then a tag that the end of input cuts inside the whitespace after its name or after an attribute *)
+Lemma html_wellformed_cut_ws_proof : forall items name attrs tws, wf_doc items -> Forall (fun i => is_plain i = false) items ->
+  (exists c nm, name = c :: nm /\ is_letter c = true) -> Forall namechar name ->
+  (exists h, to_hash (map lower name) = Ok h /\ is_xml_hash h = false) -> all_ws tws -> wf_attrs attrs tws ->
+  let d := doc_bytes items ++ 60 :: name ++ concat (map attr_bytes attrs) ++ tws in
+  let os := doc_obs items ++ mkObs StartTagT (60 :: map lower name) (map lower name) [] :: map attr_obs attrs in
+  exists tr, run no_tmpl (length os + 1) (new_lexer d) = Ok tr /\ map observe tr = os ++ [mkObs ErrorT [] [] []] /\
+             Forall (fun r => lhas (snd r) = false) tr.
+Proof.
+  intros items name attrs tws Hwf Hnp Hn1 Hn2 Hhx Hws Hattrs d os.
+  cut (exists tr, run no_tmpl (length os + 1) (new_lexer d) = Ok tr /\ map observe tr = os ++ [mkObs ErrorT [] [] []]).
+  { intros (tr & Hr & Ho). exists tr. split; [exact Hr|]. split; [exact Ho|exact (run_no_tmpl_has _ _ _ Hr)]. }
+  set (X := 60 :: name ++ concat (map attr_bytes attrs)).
+  assert (Ed : d = doc_bytes items ++ X ++ tws ++ []).
+  { unfold d, X. rewrite app_nil_r. cbn [app]. rewrite <- app_assoc. reflexivity. }
+  assert (Hts : tag_start (X ++ tws ++ [])).
+  { destruct Hn1 as (c & nm & -> & Hl). unfold X. cbn [app]. eexists c, _. split; [reflexivity|left; exact Hl]. }
+  assert (Hat0 : at_input d (new_lexer d) [] (doc_bytes items ++ X ++ tws ++ [])) by (rewrite <- Ed; apply at_input_init).
+  destruct (lexes_doc_open items d (new_lexer d) [] (X ++ tws ++ []) Hat0 eq_refl eq_refl eq_refl Hwf Hnp Hts) as (l1 & Hl1 & Hi1 & Hr1 & _).
+  assert (Hat1 : at_input d l1 (doc_bytes items) (60 :: name ++ concat (map attr_bytes attrs) ++ tws ++ [])).
+  { destruct Hl1 as (tr & _ & _ & _ & A). cbn [app] in A. unfold X in A. cbn [app] in A. rewrite <- app_assoc in A. exact A. }
+  destruct (lexes_cut_tag d l1 (doc_bytes items) name attrs tws Hat1 Hi1 Hr1 Hn1 Hn2 Hhx Hws Hattrs) as (l2 & Hl2 & Hi2).
+  fold X in Hl2.
+  pose proof (lexes_app d (new_lexer d) [] (doc_bytes items) X (tws ++ []) _ _ l1 l2 Hl1 Hl2) as (tr & Hr & Ho & Hf & Hat).
+  rewrite app_nil_r in Hat.
+  destruct (next_intag_eof d l2 _ tws Hat Hi2 Hws) as (l3 & Hn3 & Htx3).
+  exists (tr ++ [(ErrorT, None, l3)]). fold os in Hr, Ho. rewrite run_app, Hr. cbn [rbind]. rewrite Hf. cbn [run]. rewrite Hn3. cbn [rbind].
+  split; [reflexivity|]. rewrite map_app, Ho. f_equal. cbn [map observe opt_bytes]. rewrite Htx3. reflexivity.
 Qed.
 
 (* non-vacuity: <!DOCTYPE html><a B='c' d>x</A ><STYLE>p<q</style ><svg><g/></SVG > *)
@@ -1167,7 +1375,7 @@ Proof.
     split; [eexists; split; vm_compute; reflexivity|]. split; [constructor|].
     cbn [wf_attrs wf_attr]. split.
     - split; [discriminate|]. split; [repeat constructor|]. split; [discriminate|]. split; [repeat constructor; vm_compute; repeat split; discriminate|].
-      split; [constructor|]. split; [constructor|]. right. exists 39, [99]. split; [reflexivity|]. split; [tauto|repeat constructor; discriminate].
+      split; [constructor|]. split; [constructor|]. right. left. exists 39, [99]. split; [reflexivity|]. split; [tauto|repeat constructor; discriminate].
     - split; [|exact I]. split; [discriminate|]. split; [repeat constructor|]. split; [discriminate|]. repeat constructor; vm_compute; repeat split; discriminate. }
   split; [|split; [intros _; reflexivity|split; [discriminate|]]].
   { cbn [wf_item]. split; [discriminate|repeat constructor; discriminate]. }
@@ -1280,6 +1488,73 @@ Proof.
     cbn [wf_item]. split; [eexists _, _; split; reflexivity|]. split; [repeat constructor; vm_compute; repeat split; discriminate|].
     split; [eexists; split; vm_compute; reflexivity|]. cbn [wf_attrs wf_attr]. split.
     + split; [discriminate|]. split; [repeat constructor|]. split; [discriminate|]. split; [repeat constructor; vm_compute; repeat split; discriminate|].
-      split; [constructor|]. split; [constructor|]. right. exists 39, [99]. split; [reflexivity|]. split; [tauto|repeat constructor; discriminate].
+      split; [constructor|]. split; [constructor|]. right. left. exists 39, [99]. split; [reflexivity|]. split; [tauto|repeat constructor; discriminate].
     + split; [|exact I]. split; [discriminate|]. split; [repeat constructor|]. split; [discriminate|]. repeat constructor; vm_compute; repeat split; discriminate.
+Qed.
+
+(* non-vacuity of the cut svg: <p><SVG a=QxQ> <!-- </svg> with Q a double quote and x = </svg> (the end of input
+   comes inside a comment; the first end tag is inside a quoted attribute value) *)
+Example html_wellformed_cut_foreign_nonvacuous :
+  let doc := [ ITag [112] [] [] false;
+               ICutForeign html_hash_Svg [83; 86; 71] [32; 97; 61; 34; 120; 60; 47; 115; 118; 103; 62; 34; 62; 32; 60; 33; 45; 45; 32; 60; 47; 115; 118; 103; 62] ] in
+  wf_doc doc /\ exists tr, run no_tmpl 4 (new_lexer (doc_bytes doc)) = Ok tr /\ map observe tr = doc_obs doc ++ [mkObs ErrorT [] [] []].
+Proof.
+  split; [|eexists; split; vm_compute; reflexivity]. cbn [wf_doc is_text is_plain].
+  split.
+  { cbn [wf_item]. split; [eexists _, _; split; reflexivity|]. split; [repeat constructor; vm_compute; repeat split; discriminate|].
+    split; [eexists; split; vm_compute; reflexivity|]. split; [constructor|exact I]. }
+  split; [discriminate|]. split; [discriminate|]. split; [|split; [discriminate|split; [reflexivity|exact I]]].
+  cbn [wf_item]. split; [eexists _, _; split; reflexivity|]. split; [repeat constructor; vm_compute; repeat split; discriminate|].
+  split; [vm_compute; reflexivity|]. split; [vm_compute; reflexivity|]. split; [right; eexists _, _; split; [reflexivity|left; reflexivity]|vm_compute; reflexivity].
+Qed.
+
+(* non-vacuity of a tag cut inside a quoted attribute value: <a B=Qc d with Q a double quote *)
+Example html_wellformed_cut_quoted_nonvacuous :
+  let doc := [ ICutTag [97] [AVal [32] [66] [] [] [34; 99; 32; 100]] ] in
+  wf_doc doc /\ exists tr, run no_tmpl 3 (new_lexer (doc_bytes doc)) = Ok tr /\ map observe tr = doc_obs doc ++ [mkObs ErrorT [] [] []].
+Proof.
+  split; [|eexists; split; vm_compute; reflexivity]. cbn [wf_doc is_text is_plain].
+  split; [|split; [discriminate|split; [reflexivity|exact I]]].
+  cbn [wf_item]. split; [eexists _, _; split; reflexivity|]. split; [repeat constructor; vm_compute; repeat split; discriminate|].
+  split; [eexists; split; vm_compute; reflexivity|]. cbn [wf_attrs wf_attr]. split; [|exact I].
+  split; [discriminate|]. split; [repeat constructor|]. split; [discriminate|]. split; [repeat constructor; vm_compute; repeat split; discriminate|].
+  split; [constructor|]. split; [constructor|]. right. right. split; [|reflexivity].
+  exists 34, [99; 32; 100]. split; [reflexivity|]. split; [tauto|repeat constructor; discriminate].
+Qed.
+
+(* non-vacuity of the cut inside trailing whitespace: <p>x</p><a B=c followed by a blank and a line feed *)
+Example html_wellformed_cut_ws_nonvacuous :
+  let items := [ ITag [112] [] [] false; IText [120]; IEnd [112] [] ] in
+  let attrs := [ AVal [32] [66] [] [] [99] ] in
+  (wf_doc items /\ Forall (fun i => is_plain i = false) items /\ all_ws [32; 10] /\ wf_attrs attrs [32; 10]) /\
+  exists tr, run no_tmpl 7 (new_lexer (doc_bytes items ++ 60 :: [97] ++ concat (map attr_bytes attrs) ++ [32; 10])) = Ok tr /\
+             map observe tr = doc_obs items ++ mkObs StartTagT [60; 97] [97] [] :: map attr_obs attrs ++ [mkObs ErrorT [] [] []].
+Proof.
+  split; [|eexists; split; vm_compute; reflexivity].
+  split; [|split; [repeat constructor|split; [repeat constructor|]]].
+  - cbn [wf_doc is_text is_plain].
+    split.
+    { cbn [wf_item]. split; [eexists _, _; split; reflexivity|]. split; [repeat constructor; vm_compute; repeat split; discriminate|].
+      split; [eexists; split; vm_compute; reflexivity|]. split; [constructor|exact I]. }
+    split; [discriminate|]. split; [discriminate|].
+    split; [cbn [wf_item]; split; [discriminate|repeat constructor; discriminate]|]. split; [intros _; reflexivity|]. split; [discriminate|].
+    split; [cbn [wf_item]; split; [eexists _, _; split; reflexivity|]; split; [repeat constructor; vm_compute; reflexivity|constructor]|].
+    split; [discriminate|]. split; [discriminate|exact I].
+  - cbn [wf_attrs wf_attr]. split; [|exact I].
+    split; [discriminate|]. split; [repeat constructor|]. split; [discriminate|]. split; [repeat constructor; vm_compute; repeat split; discriminate|].
+    split; [constructor|]. split; [constructor|]. left.
+    split; [eexists _, _; split; [reflexivity|split; discriminate]|]. split; [repeat constructor; vm_compute; repeat split; discriminate|].
+    right. eexists _, _. split; [reflexivity|left; reflexivity].
+Qed.
+
+(* non-vacuity of the svg cut inside its end tag: <svg>x</SVG followed by a blank *)
+Example html_wellformed_cut_foreign_end_nonvacuous :
+  let doc := [ ICutForeignEnd html_hash_Svg [115; 118; 103] [62; 120] [83; 86; 71] [32] ] in
+  wf_doc doc /\ exists tr, run no_tmpl 2 (new_lexer (doc_bytes doc)) = Ok tr /\ map observe tr = doc_obs doc ++ [mkObs ErrorT [] [] []].
+Proof.
+  split; [|eexists; split; vm_compute; reflexivity]. cbn [wf_doc is_text is_plain].
+  split; [|split; [discriminate|split; [reflexivity|exact I]]].
+  cbn [wf_item]. split; [eexists _, _; split; reflexivity|]. split; [repeat constructor; vm_compute; repeat split; discriminate|].
+  split; [vm_compute; reflexivity|]. split; [vm_compute; reflexivity|]. split; [vm_compute; reflexivity|].
+  split; [eexists _, _; split; [reflexivity|right; reflexivity]|]. split; [vm_compute; reflexivity|]. split; repeat constructor.
 Qed.
